@@ -27,6 +27,34 @@ def run(cmd, cwd, timeout=900):
     return p.returncode, p.stdout
 
 
+def seeded_tree(sid, patch):
+    """Where the checks run against the seed. Default: /repo itself (git apply, undone afterwards).
+    With SEED_SCRATCH=1 (used while a background run reads /repo): a scratch worktree of /repo under
+    /tmp with the patch applied, handed to the checks through VERIF_REPO; /repo is not touched."""
+    if os.environ.get("SEED_SCRATCH"):
+        wt = f"/tmp/seedrun_{sid}"
+        subprocess.run(["git", "-C", REPO, "worktree", "remove", "--force", wt], stdout=subprocess.DEVNULL, stderr=subprocess.DEVNULL)
+        rc, out = run(["git", "-C", REPO, "worktree", "add", "-q", "--detach", wt, "HEAD"], REPO)
+        assert rc == 0, out
+        rc, out = run(["git", "apply", patch], wt)
+        assert rc == 0, out
+        return wt, dict(os.environ, VERIF_REPO=wt)
+    rc, out = run(["git", "status", "--porcelain"], REPO)
+    assert out.strip() == "", "/repo is not clean: " + out
+    rc, out = run(["git", "apply", patch], REPO)
+    assert rc == 0, out
+    return REPO, dict(os.environ)
+
+
+def restore_tree(target):
+    if target == REPO:
+        subprocess.run(["git", "-C", REPO, "checkout", "--", "."], check=True)
+        rc, out = run(["git", "status", "--porcelain"], REPO)
+        assert out.strip() == "", "/repo not restored: " + out
+    else:
+        subprocess.run(["git", "-C", REPO, "worktree", "remove", "--force", target], stdout=subprocess.DEVNULL, stderr=subprocess.DEVNULL)
+
+
 def recheck():
     """seed.py --recheck <seed-id> <check-id>[,...] [tier]: run checks against a stored, already
     confirmed seed (after the checks were strengthened); records meta['after_strengthening']."""
@@ -35,16 +63,13 @@ def recheck():
     sd = os.path.join(VERIF, "seeded", sid)
     meta = json.load(open(os.path.join(sd, "meta.json")))
     assert meta.get("kept"), "seed was not confirmed"
-    rc, out = run(["git", "status", "--porcelain"], REPO)
-    assert out.strip() == "", "/repo is not clean: " + out
-    rc, out = run(["git", "apply", os.path.join(sd, "patch.diff")], REPO)
-    assert rc == 0, out
+    target, cenv = seeded_tree(sid, os.path.join(sd, "patch.diff"))
     res = {}
     try:
         for c in checks:
             evf = os.path.join(VERIF, "evidence", c + ".json")
             evbak = open(evf).read() if os.path.exists(evf) else None
-            p = subprocess.run([os.path.join(VERIF, "check"), c, tier], cwd=VERIF, stdout=subprocess.PIPE, stderr=subprocess.STDOUT, text=True, timeout=3600)
+            p = subprocess.run([os.path.join(VERIF, "check"), c, tier], cwd=VERIF, env=cenv, stdout=subprocess.PIPE, stderr=subprocess.STDOUT, text=True, timeout=3600)
             lines = p.stdout.splitlines()
             res[c] = {"exit": p.returncode,
                       "violations": sorted({re.sub(r"^.*/replay/[^/]+/", "", l).replace(".json", "") for l in lines if l.startswith("VIOLATION")}),
@@ -52,9 +77,7 @@ def recheck():
             if evbak is not None:
                 open(evf, "w").write(evbak)
     finally:
-        subprocess.run(["git", "-C", REPO, "checkout", "--", "."], check=True)
-        rc, out = run(["git", "status", "--porcelain"], REPO)
-        assert out.strip() == "", "/repo not restored: " + out
+        restore_tree(target)
     meta.setdefault("after_strengthening", {}).update(res)
     meta["detected_by_after_strengthening"] = sorted(set(meta.get("detected_by_after_strengthening", [])) | {c for c, r in res.items() if r["exit"] == 1 and r["violations"]})
     json.dump(meta, open(os.path.join(sd, "meta.json"), "w"), indent=1)
@@ -129,17 +152,15 @@ def main():
     meta["kept"] = good
     # run the checks against /repo with the patch applied, always restore
     if good:
-        rc, out = run(["git", "status", "--porcelain"], REPO)
-        assert out.strip() == "", "/repo is not clean: " + out
-        rc, out = run(["git", "apply", patch], REPO)
-        assert rc == 0, out
+        target, cenv = seeded_tree(sid, patch)
+        meta["checks_run_against"] = target
         try:
             for c in checks:
                 t0 = time.time()
                 # evidence/<id>.json must describe the unchanged tree: keep it across the seeded run
                 evf = os.path.join(VERIF, "evidence", c + ".json")
                 evbak = open(evf).read() if os.path.exists(evf) else None
-                p = subprocess.run([os.path.join(VERIF, "check"), c, tier], cwd=VERIF, stdout=subprocess.PIPE, stderr=subprocess.STDOUT, text=True, timeout=3600)
+                p = subprocess.run([os.path.join(VERIF, "check"), c, tier], cwd=VERIF, env=cenv, stdout=subprocess.PIPE, stderr=subprocess.STDOUT, text=True, timeout=3600)
                 lines = [l for l in p.stdout.splitlines() if l.startswith(("VIOLATION", "KNOWN-FINDING", "INCONCLUSIVE", c + " "))]
                 meta["checks"][c] = {"exit": p.returncode, "wall_s": round(time.time() - t0, 1),
                                      "violations": [l for l in lines if l.startswith("VIOLATION")],
@@ -148,9 +169,7 @@ def main():
                 if evbak is not None:
                     open(evf, "w").write(evbak)
         finally:
-            subprocess.run(["git", "-C", REPO, "checkout", "--", "."], check=True)
-            rc, out = run(["git", "status", "--porcelain"], REPO)
-            assert out.strip() == "", "/repo not restored: " + out
+            restore_tree(target)
         meta["detected_by"] = [c for c, r in meta["checks"].items() if r["exit"] == 1 and r["violations"]]
     # store
     sd = os.path.join(VERIF, "seeded", sid)
